@@ -594,6 +594,51 @@ func runScalars(raw json.RawMessage, seed int64, rec *Rec) {
 		stop()
 		srv.Close()
 		rec.Add(E("result", "codes", codes, "stuck_at", stuckAt, "hend", handlerSaw))
+	case "recv_while_send":
+		// C13 "one bidirectional stream may be sent on and received from concurrently": a Send that is blocked (a message
+		// larger than the flow-control window, the handler not reading yet) does not keep Receive from delivering what
+		// the handler has already sent
+		got := make(chan struct{})
+		var gaveUp atomic.Bool
+		h := connect.NewBidiStreamHandler("/verif.v1.Svc/M", func(_ context.Context, bs *connect.BidiStream[BV, BV]) error {
+			if err := bs.Send(&BV{Value: []byte("greeting")}); err != nil {
+				return err
+			}
+			select { // start reading only once the client has the greeting
+			case <-got:
+			case <-time.After(4 * time.Second):
+				gaveUp.Store(true)
+			}
+			for {
+				if _, err := bs.Receive(); err != nil {
+					return nil
+				}
+			}
+		})
+		srv := newLoopback(h, true)
+		client := connect.NewClient[BV, BV](srv.client, srv.srv.URL+"/verif.v1.Svc/M", clientProtoOpts(s.Proto)...)
+		ctx, stop := context.WithTimeout(context.Background(), 20*time.Second)
+		bs := client.CallBidiStream(ctx)
+		_ = bs.Send(&BV{Value: []byte{1}}) // the request is on its way, the handler runs
+		sendDone := make(chan error, 1)
+		go func() { sendDone <- bs.Send(&BV{Value: make([]byte, 8<<20)}) }()
+		time.Sleep(50 * time.Millisecond) // the big Send is under way (and stuck behind the window)
+		t0 := time.Now()
+		m, rerr := bs.Receive()
+		recvMs := time.Since(t0).Milliseconds()
+		close(got)
+		serr := <-sendDone
+		_ = bs.CloseRequest()
+		for {
+			if _, err := bs.Receive(); err != nil {
+				break
+			}
+		}
+		_ = bs.CloseResponse()
+		stop()
+		srv.Close()
+		rec.Add(E("result", "recv_ok", rerr == nil && m != nil && string(m.Value) == "greeting", "recv_late", recvMs > 2000,
+			"send_ok", serr == nil, "gave_up", gaveUp.Load()))
 	case "errmeta_limit":
 		// a handler fails with metadata and a long message; the client's read limit is smaller than the error payload:
 		// whatever code the client reports, the handler's metadata is in the error (C11 "on failure at least in the
